@@ -15,7 +15,7 @@ import sys
 import tempfile
 import time
 
-PROPS = ["C%02d" % i for i in range(1, 18)]
+PROPS = ["C%02d" % i for i in list(range(1, 18)) + [19]]
 # HSA_VERIF_DIR: run the checks of another checkout of /verif (a worktree frozen before a held-out seeding round)
 VERIF = os.environ.get("HSA_VERIF_DIR", "/verif")
 
